@@ -23,6 +23,7 @@ var monitors = map[string]func(*vk.Ctx){
 	"C09":   runC09,
 	"C10":   runC10,
 	"C11":   runC11,
+	"C17":   runC17,
 	"C18":   runC18,
 	"C19":   runC19,
 	"C20":   runC20,
